@@ -27,8 +27,23 @@ def ct_run(built, drv, timeout=30, max_steps=30_000_000):
     """returns (stats dict).  raises CTViolation"""
     ex = Executor(built.module, max_steps=max_steps)
     queries = [0, 0.0]
+    found = []          # CTViolation objects (first per site)
+    seen_sites = {}
 
     rnd = rng("ct", drv)
+
+    def record(v):
+        """remember the first violation per site and keep executing (side 0) so that
+        further, different secret-dependent branches are also seen"""
+        import re as _re
+        site = _re.sub(r"17h[0-9a-f]{16}E", "", v.where)
+        if site in seen_sites:
+            return seen_sites[site]
+        seen_sites[site] = 0
+        found.append(v)
+        if len(found) > 12:
+            raise v
+        return 0
 
     def decide_bit(c, where, kind):
         # can the 1-bit term c take both values?
@@ -43,7 +58,7 @@ def ct_run(built, drv, timeout=30, max_steps=30_000_000):
             val = T.evaluate([c], env)[0] & 1
             seen.setdefault(val, env)
             if len(seen) == 2:
-                raise CTViolation(kind, where, seen[0], seen[1])
+                return record(CTViolation(kind, where, seen[0], seen[1]))
         res = {}
         for val in (1, 0):
             em = BVEmitter()
@@ -53,7 +68,7 @@ def ct_run(built, drv, timeout=30, max_steps=30_000_000):
             queries[1] += dt
             res[val] = (v, parse_model(mod) if v == "sat" else None)
         if res[1][0] == "sat" and res[0][0] == "sat":
-            raise CTViolation(kind, where, res[0][1], res[1][1])
+            return record(CTViolation(kind, where, res[0][1], res[1][1]))
         if res[1][0] == "unsat" and res[0][0] == "sat":
             return 0
         if res[0][0] == "unsat" and res[1][0] == "sat":
@@ -101,7 +116,7 @@ def ct_run(built, drv, timeout=30, max_steps=30_000_000):
             args.append(T.var(name, 8 * eb))
     t0 = time.time()
     ex.run(drv, args)
-    return {"ir_instructions": ex.steps, "terms": T.nterms(), "solver_queries": queries[0],
+    return {"violations": found, "ir_instructions": ex.steps, "terms": T.nterms(), "solver_queries": queries[0],
             "solver_seconds": round(queries[1], 2), "exec_seconds": round(time.time() - t0, 1),
             "functions": len(ex.funcs_entered)}
 
@@ -340,12 +355,24 @@ def run_config(tier, cfg="default", features=None, rustflags="", only=None):
         t1 = time.time()
         try:
             st = ct_run(built, d.name)
+            if st["violations"]:
+                return [violation_obligation(built, d, what, e, t1) for e in st["violations"]]
             ob.ok("single-path symbolic execution; z3-bv on %d non-folded conditions" % st["solver_queries"],
                   time.time() - t1, st["solver_queries"], syntactic=(st["ir_instructions"] == 0))
             ob.desc += " [%d IR instructions executed, %d functions, %d terms]" % (
                 st["ir_instructions"], st["functions"], st["terms"])
         except CTViolation as e:
-            # replay: the two witnesses must produce different instruction traces natively
+            return [violation_obligation(built, d, what, e, t1)]
+        except PanicReached as e:
+            ob.unknown("panic path reached on the single path: %s" % e)
+        except ExecError as e:
+            ob.unknown("executor: %s" % str(e)[:300])
+        return [ob]
+
+    def violation_obligation(built, d, what, e, t1):
+            ob = Obligation(CFG[0] + ":" + d.name[7:], "L", [what],
+                            "all values of the secret inputs; public lengths as in the driver",
+                            "every executed branch condition, address, length and division operand is independent of the secret inputs")
             import re as _re
             fnm = _re.sub(r"17h[0-9a-f]{16}E$", "", e.where.split(":")[0].strip())
             det = {"key": "%s|%s|%s" % (d.name[7:], fnm, e.kind), "kind": e.kind, "where": e.where,
@@ -365,11 +392,7 @@ def run_config(tier, cfg="default", features=None, rustflags="", only=None):
             else:
                 ob.unknown("IR-level secret-dependent %s at %s, but the machine-code traces of the two witnesses are identical"
                            % (e.kind, e.where[:120]))
-        except PanicReached as e:
-            ob.unknown("panic path reached on the single path: %s" % e)
-        except ExecError as e:
-            ob.unknown("executor: %s" % str(e)[:300])
-        return [ob]
+            return ob
     res = pmap(work, pairs, nproc=NCPU, timeout=timeout)
     obs = []
     for (d, what), (st, val) in zip(pairs, res):
